@@ -6,10 +6,12 @@ package reference
 import (
 	"context"
 	"errors"
+	"fmt"
 	"strings"
 
 	"github.com/hashicorp/hcl-lang/schema"
 	"github.com/hashicorp/hcl/v2"
+	"github.com/zclconf/go-cty/cty"
 )
 
 type Targets []Target
@@ -31,9 +33,41 @@ func (r Targets) Len() int {
 	return len(r)
 }
 
+// Less defines a strict (total) order of targets, such that
+// the result of sorting does not depend on the original order,
+// which often comes from iterating over a map.
 func (r Targets) Less(i, j int) bool {
-	return r[i].LocalAddr.String() < r[j].LocalAddr.String() ||
-		r[i].Addr.String() < r[j].Addr.String()
+	a, b := r[i], r[j]
+
+	if x, y := a.Addr.String(), b.Addr.String(); x != y {
+		return x < y
+	}
+	if x, y := a.LocalAddr.String(), b.LocalAddr.String(); x != y {
+		return x < y
+	}
+	// type-unaware targets go first
+	if (a.Type == cty.NilType) != (b.Type == cty.NilType) {
+		return a.Type == cty.NilType
+	}
+	if x, y := rangeSortKey(a.RangePtr), rangeSortKey(b.RangePtr); x != y {
+		return x < y
+	}
+	if a.ScopeId != b.ScopeId {
+		return a.ScopeId < b.ScopeId
+	}
+	if a.Type != cty.NilType && b.Type != cty.NilType {
+		if x, y := a.Type.GoString(), b.Type.GoString(); x != y {
+			return x < y
+		}
+	}
+	return a.Name < b.Name
+}
+
+func rangeSortKey(rng *hcl.Range) string {
+	if rng == nil {
+		return ""
+	}
+	return fmt.Sprintf("%s:%012d:%012d", rng.Filename, rng.Start.Byte, rng.End.Byte)
 }
 
 func (r Targets) Swap(i, j int) {
